@@ -438,6 +438,19 @@ func (d *driver) runStep(st jStep) {
 	d.cur = &st
 	{
 		d.aux("before step")
+		// a step that refers to an object the real library did not produce (an earlier step failed) is skipped
+		switch st.Do {
+		case "mgrFrom", "public", "prim":
+			if st.H < 1 || st.H > len(d.handles) {
+				d.nSkipped++
+				return
+			}
+		case "mgrAnn", "mgrAdd", "mgrAddNew", "mgrSetPrimary", "mgrEnable", "mgrDisable", "mgrDelete", "mgrHandle":
+			if st.M < 1 || st.M > len(d.mgrs) {
+				d.nSkipped++
+				return
+			}
+		}
 		switch st.Do {
 		case "schedule":
 			d.schedule()
